@@ -1008,8 +1008,12 @@ func (index *fkDeleteCascadeConstraint) ProcessAfterUpdate(*IndexingContext) {
 
 func (index *fkDeleteCascadeConstraint) ProcessBeforeDelete(ctx *IndexingContext) {
 	if !ctx.ErrHolder.HasError() {
-		filter, err := ast.Parse(index.symbol.GetStore(), fmt.Sprintf(`%v = "%v"`, index.symbol.GetName(), string(ctx.RowId)))
-		if ctx.ErrHolder.SetError(err) {
+		// build the filter as an AST rather than as text, so that ids containing quotes, backslashes,
+		// control characters or filter keywords can't change the meaning of the filter
+		var filter ast.BoolNode = ast.NewInArrayExprNode(
+			ast.NewUntypedSymbolNode(index.symbol.GetName()),
+			ast.NewStringArrayNode([]string{string(ctx.RowId)}))
+		if ctx.ErrHolder.SetError(ast.PostProcess(index.symbol.GetStore(), &filter)) {
 			return
 		}
 
